@@ -151,6 +151,7 @@ def canon_msg(msg):
     m = re.sub(r"\(found:?.*$", "", m)
     m = re.sub(r"\(got .*$", "", m)
     m = re.sub(r"[A-Za-z0-9_./\\-]+\.(ms|mmm|rs)(:\d+)*(:\d+)?", "FILE", m)
+    m = re.sub(r"^\w+ is not in scope", "NAME is not in scope", m)
     m = re.sub(r"`[^`]*`", "`_`", m)
     m = re.sub(r"'[^']*'", "'_'", m)
     m = re.sub(r'"[^"]*"', '"_"', m)
